@@ -262,6 +262,12 @@ func runC11(c *core.Case) {
 		c.Procs()
 	}
 	in := ref.Exts(ids)
+	if !veryLong && r.P(0.06) { // the same voxel a second time under another parser-accepted spelling
+		k := r.Intn(len(in))
+		in = append(in, respell(r, in[k]))
+		ids = append(ids, ids[k])
+		c.Tag("respelled-twin")
+	}
 	inCopy := copyStrings(in)
 	var obs []string
 	c.Desc = func() any {
@@ -348,10 +354,23 @@ func runC11(c *core.Case) {
 		keys = keys[:300]
 	}
 	var tiles []ref.ID
+	// index form means maxHeight == minHeight, whatever the common value is: elements carry 0, 100, -5 ... and some
+	// (quadkey, vertical index) pairs are listed twice with different constants - still one ID each
+	eqConst := func() float64 { return []float64{0, 0, 0, 100, -5, 0.5, 1e9}[r.Intn(7)] }
 	for _, p := range keys {
-		objs = append(objs, object.NewQuadkeyAndVerticalID(H, p[0], V, p[1], 0, 0))
+		hc := eqConst()
+		objs = append(objs, object.NewQuadkeyAndVerticalID(H, p[0], V, p[1], hc, hc))
 		x, y := ref.UnQuadkey(p[0], H)
 		tiles = append(tiles, ref.ID{H: H, X: x, Y: y, V: V, F: p[1]})
+	}
+	if len(keys) > 0 && len(keys) < 40 && r.P(0.3) {
+		for n := 1 + r.Intn(2); n > 0; n-- {
+			k := r.Intn(len(keys))
+			hc := eqConst() + 1
+			objs = append(objs, object.NewQuadkeyAndVerticalID(H, keys[k][0], V, keys[k][1], hc, hc))
+			tiles = append(tiles, tiles[k])
+		}
+		c.Tag("backward-twin-elements-other-height-constant")
 	}
 	back, err := transform.ConvertQuadkeysAndVerticalIDsToExtendedSpatialIDs(objs, H, V)
 	c.Call()
@@ -369,7 +388,7 @@ func runC11(c *core.Case) {
 		return
 	}
 	if sameZoomList(ids, H, V) && len(got) <= 300 {
-		origin, _ := ref.SetOfExt(in)
+		origin, _ := ref.SetOfExt(ref.Exts(ids)) // canonical spellings of the inputs
 		if _, _, same := ref.SameSet(bs, origin); !same {
 			c.Fail("quadkey-roundtrip", nil, "round trip at the IDs' own zooms returned %v, original %v", trunc(back, 10), in)
 			return
